@@ -51,10 +51,17 @@ RULE = ('event trains built from a ground truth (true event times t_e, b = (1+pp
         '"dense" = gaps 0.01..0.3 s (several candidates per window: exercises the used/nearest rules, duplicate b indices '
         'and a large second pass; outside the property domain, model comparison only); "dyadic" = tbin = 1/8, times on the '
         '2^-10 grid, events planted exactly at the threshold on either side (all float operations exact); "small" = 0..5 '
-        'events; "tbin" = other bin lengths.  Every train is run in both modes, under one of four call protocols (single, repeat, mutate_returns, interleave; see run_sequence).  A case is non-trivial when at least one '
+        'events; "tbin" = other bin lengths.  "intsec" = whole-second trains (integer gaps, half with tbin = 1), "f32safe" = float32-exact trains (2^-10 grid below 4096 s without drift, or 2^-16 grid below 128 s with drift and jitter): the carriers of the dtype forms.  Every train is run in both modes, in a drawn input form (see ASSUMPTIONS), under one of four call protocols (single, repeat, mutate_returns, interleave; see run_sequence).  A case is non-trivial when at least one '
         'event is unmatched or matched in the second pass or a window held several candidates; distinct by the digest '
         'of the two time vectors + mode + tbin.')
 ASSUMPTIONS = [
+    'input forms: the form (dtype of tsa/tsb incl. mixed, strided / read-only / list layout, keyword vs positional spelling in the '
+    'order (tsa, tsb, tbin, return_indices, linear), tbin as omitted / float / np.float64 / int / np.int64 / np.uint8, the '
+    'return_indices=False entry) is drawn independently of the values; integer dtypes only for whole-second trains, float32 only for '
+    'float32-exact trains, so every form denotes the same mathematical values.  Python lists are not accepted by the API '
+    '(AttributeError: no .shape) — counted under form_list_unsupported, not compared; float16 is rejected by numpy.linalg (not generated)',
+    'known finding unsigned-negative-offset: for unsigned integer arrays with a matched b time smaller than its a time the comparison of '
+    'drift / mapping with the plain form and the oracle are skipped (the index pairs are still compared with the model)',
     'the model is a pure function of (tsa, tsb, tbin, linear); the code is called without defensive copies and about half of the '
     'cases run a call sequence on the SAME argument objects (three calls in a row; or calls on other trains of the same lengths and '
     'end points plus parabolic_max interleaved between two calls): every call must return the model result of the ORIGINAL values '
@@ -73,8 +80,9 @@ ASSUMPTIONS = [
     'with events missing is matched equally well one period off — inherent ambiguity, not demanded; the shrinker of the '
     'failing-input search respects the same predicate (in_domain)',
     'numeric oracle (partial): every returned pair true, >= 95 % of the true pairs returned, |f(t) - true(t)| <= 1 ms at '
-    'held-out times (events deleted on the a side and 5 random times; for the interpolating mode only those inside the range '
-    'of the matched a events, since extrapolating an interpolant amplifies the jitter by distance/gap), '
+    'held-out times (the true A-time of every event missing on either side, at any position incl. 0, 1, n-2, n-1, and 5 random times); '
+    'in interpolating mode a held-out time up to 60 s OUTSIDE the range of the matched a events is allowed 1 ms + J*(1 + 2*D/gap) '
+    '(chord through the two end pairs `gap` apart, each within the jitter J of the true line, D = distance beyond the end pair), '
     '|drift - true| <= 0.05 ppm + the worst-case least-squares slope error for the bounded jitter of the case '
     '(J * sum|x - mean| / sum (x - mean)^2)',
     'a non-finite intermediate map (interp1d on fewer than two first-pass matches returns nan; only trains of 2-3 events) has no '
@@ -146,15 +154,113 @@ def _raise_hang(signum, frame):
 
 PROTOCOLS = ('single', 'repeat', 'mutate_returns', 'interleave')
 
+# ---------------------------------------------------------------------------------------------
+# input forms: the same mathematical values / the same call in another legitimate representation
+# ---------------------------------------------------------------------------------------------
+FORM0 = {'dtype': 'float64', 'layout': 'contiguous', 'spelling': 'keywords', 'tbin': 'omitted', 'noidx': False}
+UNSIGNED = ('uint16', 'uint32', 'uint64')
+
+
+def form_text(form):
+    return ' '.join(f'{k}={form[k]}' for k in ('dtype', 'layout', 'spelling', 'tbin')) + (' +return_indices=False call' if form.get('noidx') else '')
+
+
+def draw_form(rng, kind, tbin):
+    """The FORM is drawn independently of the VALUE; the value class only decides which dtypes are lossless."""
+    form = dict(FORM0)
+    if rng.integers(0, 4) == 0:          # a quarter of the cases keep the plain form
+        return form
+    if kind == 'intsec':                 # whole seconds: every integer and float dtype holds the values exactly
+        form['dtype'] = str(rng.choice(['int64', 'int32', 'int16', 'uint16', 'uint32', 'uint64', 'float32', 'float64', 'mixed_int64_float64']))
+    elif kind == 'f32safe':              # multiples of 2^-10 below 4096 (or of 2^-16 below 128): exact in float32
+        form['dtype'] = str(rng.choice(['float32', 'float32', 'mixed_float32_float64', 'float64']))
+    form['layout'] = str(rng.choice(['contiguous', 'strided', 'readonly', 'strided', 'list'], p=[0.3, 0.3, 0.25, 0.1, 0.05]))
+    form['spelling'] = str(rng.choice(['keywords', 'positional']))
+    if tbin is None:
+        form['tbin'] = str(rng.choice(['omitted', 'float', 'np.float64'])) if form['spelling'] == 'keywords' else str(rng.choice(['float', 'np.float64']))
+    else:
+        opts = ['float', 'np.float64'] + (['int', 'np.int64', 'np.uint8'] if float(tbin).is_integer() else [])
+        form['tbin'] = str(rng.choice(opts))
+    form['noidx'] = bool(rng.integers(0, 4) == 0)
+    return form
+
+
+def dtypes_of(form):
+    d = form['dtype']
+    if d.startswith('mixed_'):
+        _, da, db = d.split('_')
+        return da, db
+    return d, d
+
+
+def plain_args(tsa, tsb, form):
+    """Contiguous arrays of the form's dtypes (what the harness feeds to its own _coarse / _fit)."""
+    da, db = dtypes_of(form)
+    return np.asarray(tsa, float).astype(da), np.asarray(tsb, float).astype(db)
+
+
+def form_args(tsa, tsb, form):
+    """The argument objects handed to the code, in the form's dtype and memory layout."""
+    out = []
+    for x in plain_args(tsa, tsb, form):
+        if form['layout'] == 'strided':
+            big = np.full(3 * x.size + 1, 77, dtype=x.dtype)
+            big[1::3] = x
+            x = big[1::3]
+        elif form['layout'] == 'readonly':
+            x = x.copy(); x.setflags(write=False)
+        elif form['layout'] == 'list':
+            x = x.tolist()
+        out.append(x)
+    return out
+
+
+def tbin_obj(tbin, form):
+    tb = default_tbin() if tbin is None else tbin
+    if form['tbin'] == 'omitted':            # left out when it is the default, otherwise a Python float
+        return None if tbin is None else float(tb)
+    return { 'float': float(tb), 'np.float64': np.float64(tb), 'int': int(tb), 'np.int64': np.int64(tb),
+            'np.uint8': np.uint8(tb)}[form['tbin']]
+
+
+def invoke(f, A, B, tbin, linear, form, return_indices=True):
+    """The call in the form's spelling: keywords, or positionally in the order of the documented signature
+    sync_timestamps(tsa, tsb, tbin=0.1, return_indices=False, linear=False)."""
+    tb = tbin_obj(tbin, form)
+    if form['spelling'] == 'positional':
+        return f(A, B, tb, return_indices, linear)
+    kw = {} if tb is None else {'tbin': tb}
+    return f(A, B, return_indices=return_indices, linear=linear, **kw)
+
+
+def call_text(tbin, linear, form, return_indices=True):
+    tb = tbin_obj(tbin, form)
+    tbs = '' if tb is None else {'float': repr(float(tb)), 'np.float64': f'np.float64({float(tb)!r})', 'int': str(tb),
+                                 'np.int64': f'np.int64({tb})', 'np.uint8': f'np.uint8({tb})', 'omitted': repr(float(tb))}[form['tbin']]
+    if form['spelling'] == 'positional':
+        return f'sync_timestamps(tsa, tsb, {tbs}, {return_indices}, {linear})'
+    return f'sync_timestamps(tsa, tsb, return_indices={return_indices}, linear={linear}' + (f', tbin={tbs}' if tbs else '') + ')'
+
+
+def in_unsigned_class(tsa, tsb, true, form):
+    """Known finding `unsigned-negative-offset`: an unsigned integer dtype and a matched b time smaller than its a time."""
+    da, db = dtypes_of(form)
+    if da not in UNSIGNED and db not in UNSIGNED:
+        return False
+    if not true:
+        return bool(np.min(tsb) < np.max(tsa)) if (len(tsa) and len(tsb)) else False
+    tp = np.array(true)
+    return bool(np.any(np.asarray(tsb)[tp[:, 1]] < np.asarray(tsa)[tp[:, 0]]))
+
+
 
 def proto_of(key, linear):
     """Call protocol of a generated case: three quarters of the cases exercise state carried between calls."""
     return PROTOCOLS[(int(key) + (0 if linear else 1)) % len(PROTOCOLS)]
 
 
-def _call(A, B, tbin, linear):
+def _call(A, B, tbin, linear, form=FORM0, return_indices=True):
     """One bounded call on the argument OBJECTS A, B (no copies) -> (error name or None, fcn, drift, ia, ib)."""
-    kw = {} if tbin is None else {'tbin': tbin}
     import scipy.interpolate  # noqa  imported by the code on first use: keep import time out of the bound
     import scipy.signal  # noqa
     f = _sync()
@@ -165,7 +271,10 @@ def _call(A, B, tbin, linear):
     try:
         with warnings.catch_warnings():
             warnings.simplefilter('ignore')
-            fcn, drift, ia, ib = f(A, B, return_indices=True, linear=linear, **kw)
+            r = invoke(f, A, B, tbin, linear, form, return_indices)
+            if not isinstance(r, tuple) or len(r) != (4 if return_indices else 2):
+                return f'WrongReturnArity(got {len(r) if isinstance(r, tuple) else type(r).__name__} values for return_indices={return_indices})', None, None, None, None
+            fcn, drift, ia, ib = r if return_indices else (r[0], r[1], None, None)
     except Exception as e:  # noqa
         return type(e).__name__, None, None, None, None
     finally:
@@ -181,7 +290,7 @@ def _canon(err, ia, ib):
     return 'ok ia=' + (','.join(str(int(i)) for i in ia) or '-') + ' ib=' + (','.join(str(int(i)) for i in ib) or '-')
 
 
-def run_sequence(tsa, tsb, tbin, linear, proto='single'):
+def run_sequence(tsa, tsb, tbin, linear, proto='single', form=FORM0):
     """Run the call protocol on ONE pair of argument objects and return
          results: [(canonical string, fcn, drift)] of every call of sync_timestamps(A, B, ...) in the sequence,
          steps:   the concrete call sequence as text,
@@ -194,26 +303,37 @@ def run_sequence(tsa, tsb, tbin, linear, proto='single'):
       interleave      call; sync_timestamps on OTHER trains of the same lengths and the same first/last event (interior
                       events moved by 0.2 s; then tsa against tsa + 1), parabolic_max on a scratch vector, all on their own
                       copies; call again
+    `form` = representation of the values and spelling of the call (see draw_form); with form['noidx'] the sequence also
+    contains the call with return_indices=False, whose (fcn, drift) must be those of the first call.
     """
     from ibldsp.utils import parabolic_max
-    A, B = np.array(tsa, dtype=float), np.array(tsb, dtype=float)       # the argument objects of every call
-    refA, refB = A.copy(), B.copy()
+    A, B = form_args(tsa, tsb, form)                                     # the argument objects of every call
+    refA, refB = np.array(tsa, dtype=float), np.array(tsb, dtype=float)
     results, steps, purity = [], [], None
+    if form != FORM0:
+        da, db = dtypes_of(form)
+        lay = {'contiguous': '', 'strided': '   # as every third element of a larger buffer (non-contiguous view)',
+               'readonly': '   # with .setflags(write=False)', 'list': '.tolist()'}[form['layout']]
+        steps.append(f"tsa = tsa.astype('{da}'){lay}; tsb = tsb.astype('{db}'){lay}")
 
     def main_call():
         nonlocal purity
         k = len(results) + 1
-        err, fcn, drift, ia, ib = _call(A, B, tbin, linear)
-        steps.append(f'r{k} = sync_timestamps(tsa, tsb, return_indices=True, linear={linear}'
-                     + ('' if tbin is None else f', tbin={tbin!r}') + ')')
+        err, fcn, drift, ia, ib = _call(A, B, tbin, linear, form)
+        steps.append(f'r{k} = ' + call_text(tbin, linear, form))
         results.append((_canon(err, ia, ib), fcn, drift))
         if purity is None:
             for name, X, R in (('tsa', A, refA), ('tsb', B, refB)):
-                if X.shape != R.shape or X.dtype != R.dtype or X.tobytes() != R.tobytes():
+                Xv = np.asarray(X, dtype=float)
+                if Xv.shape != R.shape or Xv.tobytes() != R.tobytes():
                     purity = f'argument {name} was modified in place by call r{k}'
         return ia, ib
 
     ia, ib = main_call()
+    if form.get('noidx') and results[0][0].startswith('ok'):
+        err, fcn, drift, _, _ = _call(A, B, tbin, linear, form, return_indices=False)
+        steps.append(f'r{len(results) + 1} = ' + call_text(tbin, linear, form, False) + '   # (fcn, drift) only: must be those of r1')
+        results.append((results[0][0] if err is None else f'err {err}', fcn, drift))
     if proto == 'single' and purity is not None:
         main_call()          # what a user observes of an overwritten argument: the next call on the same objects
     if proto == 'repeat':
@@ -253,28 +373,28 @@ def demanded(results, proto):
     return results[:1] if proto == 'mutate_returns' else results
 
 
-def _same_map(r1, rk, tsa):
+def _same_map(r1, rk, tsa, tol_ppm=1e-6):
     """Do two results of calls on equal original values carry the same drift and the same mapping?"""
     (_, f1, d1), (_, fk, dk) = r1, rk
     if f1 is None or fk is None:
         return True
-    if abs(d1 - dk) > 1e-6:
+    if abs(d1 - dk) > tol_ppm:
         return False
     x = np.array(tsa[:: max(1, len(tsa) // 7)], dtype=float)
     try:
         with warnings.catch_warnings(), np.errstate(all='ignore'):
             warnings.simplefilter('ignore')
-            return bool(np.allclose(np.asarray(f1(x), float), np.asarray(fk(x), float), rtol=0, atol=1e-9, equal_nan=True))
+            return bool(np.allclose(np.asarray(f1(x), float), np.asarray(fk(x), float), rtol=0, atol=(1e-9 if tol_ppm <= 1e-6 else 1e-6), equal_nan=True))
     except Exception:  # noqa
         return False
 
 
-def run_impl(tsa, tsb, tbin, linear, proto='single', info=None):
+def run_impl(tsa, tsb, tbin, linear, proto='single', info=None, form=FORM0):
     """-> (canonical string, fcn, drift) of the call protocol: the result of the first call when every demanded call of the
     sequence returned the same index pairs, drift and mapping; otherwise a string naming the call that deviates.  An argument
     overwritten in place / a result that changes after the returned arrays were overwritten is recorded in `info` (tags), it
     is not a disagreement by itself: only its consequence on the RESULTS of later calls is."""
-    results, steps, purity = run_sequence(tsa, tsb, tbin, linear, proto)
+    results, steps, purity = run_sequence(tsa, tsb, tbin, linear, proto, form)
     if info is not None:
         if purity is not None:
             info.append('info_argument_modified_in_place')
@@ -390,7 +510,7 @@ def spec_domain(rng, corner=False):
     off = float(rng.choice([0.0, 0.05, -0.05, 1.0, -1.0, 60.0, -60.0, 300.0, -300.0, float(rng.uniform(-300, 300))]))
     ja, jb = (float(x) for x in rng.choice([0.0, 1e-5, 1e-4], 2))
     ma, mb = (int(x) for x in rng.integers(0, 6, 2))
-    pat = int(rng.integers(0, 6))
+    pat = int(rng.integers(0, 7))
     da = _missing(rng, n, ma, pat if pat < 4 else 3)
     db = da[:mb] if (pat == 4 and mb <= ma) else _missing(rng, n, mb, int(rng.integers(0, 4)))
     if pat == 5 and ma and mb:   # neighbouring events, one seen only by b, the next only by a, the shortest gap apart
@@ -398,6 +518,10 @@ def spec_domain(rng, corner=False):
         da, db = np.array([s0]), np.array([s0 + 1])
         gaps[s0 + 1] = 0.5
         t = np.cumsum(gaps) + t[0] - gaps[0]
+    if pat == 6:   # events missing at the very ends of either side (positions 0, 1, n-2, n-1): held-out events outside the matched range
+        ends = [[0], [1], [0, 1], [n - 1], [n - 2, n - 1], [0, n - 1], [n - 2], [1, n - 2], [0, 1, 2], []]
+        da = np.array(ends[int(rng.integers(0, len(ends)))], int)
+        db = np.array(ends[int(rng.integers(0, len(ends) - 1))], int)
     ka = np.setdiff1d(np.arange(n), da)
     kb = np.setdiff1d(np.arange(n), db)
     return {'t': t, 'ka': ka, 'kb': kb, 'ppm': ppm, 'off': off, 'ja': ja, 'jb': jb,
@@ -427,6 +551,50 @@ def spec_intspan_domain(rng):
     t[-1] = last
     return {'t': t, 'ka': np.arange(n), 'kb': np.arange(n), 'ppm': 0.0, 'off': 0.0, 'ja': 0.0, 'jb': 0.0,
             'ea': np.zeros(n), 'eb': np.zeros(n), 'domain': True}
+
+
+def spec_intsec(rng):
+    """Whole-second trains (exact in every integer and float dtype): integer gaps, no drift, integer offset, no jitter; times stay
+    in [100, 5000] so that int16 / uint16 hold them.  Half of them use tbin = 1 (gaps 5..10 s), the others the default."""
+    tb1 = bool(rng.integers(0, 2))
+    for _ in range(50):
+        n = int(rng.choice([30, 31, 60, 120, 300, int(rng.integers(30, 301))]))
+        gaps = rng.integers(5 if tb1 else 1, 11, n).astype(float)
+        if ambiguity(np.cumsum(gaps), 1.0 if tb1 else 0.1) <= AMBIG_MAX - 0.1:
+            break
+    t = np.cumsum(gaps) + float(rng.integers(400, 1000))
+    off = float(rng.choice([0, 1, -1, 7, -7, 60, -60, 300, -300]))
+    ma, mb = (int(x) for x in rng.integers(0, 6, 2))
+    pat = int(rng.integers(0, 4))
+    ka = np.setdiff1d(np.arange(n), _missing(rng, n, ma, pat))
+    kb = np.setdiff1d(np.arange(n), _missing(rng, n, mb, int(rng.integers(0, 4))))
+    return {'t': t, 'ka': ka, 'kb': kb, 'ppm': 0.0, 'off': off, 'ja': 0.0, 'jb': 0.0, 'ea': np.zeros(n), 'eb': np.zeros(n),
+            'domain': not tb1, 'grid': 1.0, 'exact': True, 'tbin': 1.0 if tb1 else None}
+
+
+def spec_f32safe(rng):
+    """Trains whose times are exact in float32: (A) multiples of 2^-10 s below 4096 s, no drift, offset on the same grid, or
+    (B) multiples of 2^-16 s below 128 s (30..40 events, short gaps), any drift, jitter."""
+    if rng.integers(0, 2):
+        for _ in range(50):
+            n = int(rng.choice([30, 31, 100, 299, 300, int(rng.integers(30, 301))]))
+            gaps = grid(rng.uniform(0.5, 10, n), 1024.0)
+            if ambiguity(np.cumsum(gaps)) <= AMBIG_MAX - 0.1:
+                break
+        t = np.cumsum(gaps) + float(rng.integers(0, 100))
+        ppm, off, ja, jb, g, exact = 0.0, float(grid(rng.uniform(-60, 60), 1024.0)), 0.0, 0.0, 1024.0, True
+    else:
+        n = int(rng.integers(30, 41))
+        gaps = 0.5 + 2.0 * rng.uniform(0, 1, n) ** 2
+        t = np.cumsum(gaps)
+        ppm, off = float(rng.choice([-100.0, 100.0, float(rng.uniform(-100, 100))])), float(rng.uniform(-20, 20))
+        ja, jb = (float(x) for x in rng.choice([0.0, 1e-5, 5e-5], 2))
+        g, exact = 65536.0, False
+    ma, mb = (int(x) for x in rng.integers(0, 6, 2))
+    ka = np.setdiff1d(np.arange(n), _missing(rng, n, ma, int(rng.integers(0, 4))))
+    kb = np.setdiff1d(np.arange(n), _missing(rng, n, mb, int(rng.integers(0, 4))))
+    return {'t': t, 'ka': ka, 'kb': kb, 'ppm': ppm, 'off': off, 'ja': ja, 'jb': jb, 'ea': rng.uniform(-ja, ja, n),
+            'eb': rng.uniform(-jb, jb, n), 'domain': True, 'grid': g, 'exact': exact}
 
 
 def spec_dense(rng):
@@ -486,20 +654,23 @@ def make_case(kind, rng):
         which = int(rng.integers(0, 3))
         return {'kind': kind, 'tsa': a[:0] if which != 1 else a, 'tsb': a[:0] if which != 0 else a, 'tbin': None, 'spec': None, 'true': None}
     spec = {'domain': spec_domain, 'corner': lambda r: spec_domain(r, corner=True), 'intspan': spec_intspan, 'intspan_domain': spec_intspan_domain,
-            'dense': spec_dense, 'small': spec_small, 'tbin': spec_domain}[kind](rng)
+            'dense': spec_dense, 'small': spec_small, 'tbin': spec_domain, 'intsec': spec_intsec, 'f32safe': spec_f32safe}[kind](rng)
     if kind == 'tbin':
         tbin = float(rng.choice([0.05, 0.2, 0.125, 0.07]))
         spec['domain'] = False
     if kind == 'intspan':
         spec['grid'] = 1024.0
+    if kind == 'intsec':
+        tbin = spec['tbin']
     tsa, tsb, true = build(spec)
     return {'kind': kind, 'tsa': tsa, 'tsb': tsb, 'tbin': tbin, 'spec': spec, 'true': true}
 
 
-KINDS = (['domain'] * 10 + ['corner'] * 2 + ['dense'] * 6 + ['dyadic'] * 2 + ['intspan', 'intspan_domain', 'small', 'tbin', 'tbin', 'empty'])
+KINDS = (['domain'] * 10 + ['corner'] * 2 + ['dense'] * 6 + ['dyadic'] * 2 + ['intspan', 'intspan_domain', 'small', 'tbin', 'tbin', 'empty']
+         + ['intsec'] * 2 + ['f32safe'] * 2)
 
 
-DOMAIN_KINDS = ('domain', 'corner', 'intspan_domain')
+DOMAIN_KINDS = ('domain', 'corner', 'intspan_domain', 'intsec', 'f32safe')
 
 
 def kind_of(k):
@@ -508,6 +679,10 @@ def kind_of(k):
 
 def case_by_key(ctx, k):
     return make_case(kind_of(k), ctx.subrng(19, k))
+
+
+def form_by_key(ctx, k, linear, tbin):
+    return draw_form(ctx.subrng(19, k, 5, int(bool(linear))), kind_of(k), tbin)
 
 
 # ---------------------------------------------------------------------------------------------
@@ -546,6 +721,7 @@ def float_margin(tsa, tsb, delta, theta, fa, ib1):
 REC_MIN = 0.95
 TOL_T = 1e-3
 TOL_PPM0 = 0.05
+EXTRAP_MAX_S = 60.0
 
 
 def in_finding_class(tsa, tsb, true, tbin, linear):
@@ -579,35 +755,49 @@ def _check_result(spec, linear, tsa, true, res, fcn, drift, stats=None):
         return f'only {len(got)} of {len(true)} true correspondences returned (< 95 %)'
     t = np.asarray(spec['t'], float)
     alpha = 1 + spec['ppm'] * 1e-6
-    jtot = (1 + abs(spec['ppm']) * 1e-6) * (spec['ja'] + 1 / spec.get('grid', GRID)) + spec['jb'] + 1 / spec.get('grid', GRID)
+    rnd = 0.0 if spec.get('exact') else 1 / spec.get('grid', GRID)      # rounding of the times to the grid acts as jitter
+    jtot = (1 + abs(spec['ppm']) * 1e-6) * (spec['ja'] + rnd) + spec['jb'] + rnd
     x = tsa[ia]
     xc = x - x.mean()
     bound_ppm = TOL_PPM0 + 1e6 * jtot * float(np.sum(np.abs(xc)) / np.sum(xc ** 2))
     if abs(drift - spec['ppm']) > bound_ppm:
         return f'reported drift {drift!r} ppm, true drift {spec["ppm"]!r} ppm (allowed deviation {bound_ppm:.3g} ppm)'
-    held = np.setdiff1d(np.arange(t.size), np.asarray(spec['ka'], int))
+    # held-out: every underlying event that is missing on either side (at its true time on clock A) + 5 random times
+    both = np.intersect1d(np.asarray(spec['ka'], int), np.asarray(spec['kb'], int))
+    held = np.setdiff1d(np.arange(t.size), both)
     rs = np.random.default_rng(int(t.size))
     th = np.r_[t[held], rs.uniform(x.min(), x.max(), 5)]
-    if not linear:
-        th = th[(th >= x.min()) & (th <= x.max())]
+    tol = np.full(th.size, TOL_T)
+    if not linear and x.size >= 2:
+        # outside the matched range the interpolant is the chord through the two end pairs, each off the true line by at most
+        # jtot: worst case jtot * (1 + 2 D / gap) at distance D beyond an end pair `gap` apart.  Events up to EXTRAP_MAX_S out.
+        xs = np.sort(x)
+        lo, hi = th < xs[0], th > xs[-1]
+        tol[lo] += jtot * (1 + 2 * (xs[0] - th[lo]) / (xs[1] - xs[0]))
+        tol[hi] += jtot * (1 + 2 * (th[hi] - xs[-1]) / (xs[-1] - xs[-2]))
+        near = (th >= xs[0] - EXTRAP_MAX_S) & (th <= xs[-1] + EXTRAP_MAX_S)
+        th, tol = th[near], tol[near]
     th0 = th.copy()
-    err = float(np.max(np.abs(np.asarray(fcn(th), float) - (alpha * th0 + spec['off'])))) if th.size else 0.0
+    dev = np.abs(np.asarray(fcn(th), float) - (alpha * th0 + spec['off'])) if th.size else np.zeros(0)
+    err = float(np.max(dev / tol) * TOL_T) if th.size else 0.0      # scaled so that the allowed value is TOL_T everywhere
     if stats is not None:
         stats['err'] = max(stats.get('err', 0.0), err)
         stats['dppm'] = max(stats.get('dppm', 0.0), abs(drift - spec['ppm']) / bound_ppm)
         stats['rec'] = min(stats.get('rec', 1.0), len(got) / max(len(true), 1))
     if err > TOL_T:
-        return f'mapping error {err:.3g} s at a held-out event (> 1 ms)'
+        w = int(np.argmax(dev / tol))
+        return (f'mapping error {dev[w]:.3g} s at the held-out time {float(th0[w])!r} (allowed {tol[w]:.3g} s; matched a events span '
+                f'[{float(x.min())!r}, {float(x.max())!r}])')
     return None
 
 
-def oracle(spec, linear, tbin=None, stats=None, proto='single', want_steps=False, fresh=False):
+def oracle(spec, linear, tbin=None, stats=None, proto='single', want_steps=False, fresh=False, form=FORM0):
     """None when C19 holds for this ground truth on the real code for EVERY demanded call of the protocol's call sequence
     (same argument objects throughout; results judged against the original values), else what fails and at which call."""
     tsa, tsb, true = build(spec)
     if fresh:
         fresh_state()
-    results, steps, purity = run_sequence(tsa, tsb, tbin, linear, proto)
+    results, steps, purity = run_sequence(tsa, tsb, tbin, linear, proto, form)
     why = None
     dem = demanded(results, proto)
     for k, (res, fcn, drift) in enumerate(dem, 1):    # every result is judged against the ORIGINAL values
@@ -664,12 +854,17 @@ def correspondence(ctx):
         tb = tb0 if c['tbin'] is None else c['tbin']
         c['theta'] = tb
         c['proto'] = proto_of(c['key'], c['linear'])
+        c['form'] = form_by_key(ctx, c['key'], c['linear'], c['tbin'])
         c['info'] = []
-        c['impl'], c['fcn'], c['drift'] = run_impl(tsa, tsb, c['tbin'], c['linear'], c['proto'], c['info'])
+        c['impl'], c['fcn'], c['drift'] = run_impl(tsa, tsb, c['tbin'], c['linear'], c['proto'], c['info'], c['form'])
+        if c['form']['layout'] == 'list' and c['impl'] in ('err AttributeError', 'err TypeError'):
+            c['skip'] = 'form_list_unsupported'      # Python lists are not accepted by the API (ASSUMPTIONS)
+            continue
+        c['PA'], c['PB'] = plain_args(tsa, tsb, c['form'])      # the harness computes delta_t / the fit in the same dtype
         c['delta'] = None
         if tsa.size and tsb.size:
             try:
-                c['delta'] = float(_coarse(tsa, tsb, tb))
+                c['delta'] = float(_coarse(c['PA'], c['PB'], tb))
             except Exception as e:  # noqa
                 c['delta_err'] = type(e).__name__
         if c['delta'] is not None:
@@ -680,6 +875,8 @@ def correspondence(ctx):
     l2 = []
     for c in cases:
         tsa, tsb = c['tsa'], c['tsb']
+        if 'skip' in c:
+            continue
         if not (tsa.size and tsb.size):
             l2.append('sync 0 0 1 ' + ' '.join(encode([tsa, tsb, tsa])[1]))
             c['fa'] = None
@@ -694,8 +891,8 @@ def correspondence(ctx):
         try:
             with warnings.catch_warnings():
                 warnings.simplefilter('ignore')
-                f = _fit(tsa, tsb, ib1, c['linear'])
-                fa = np.asarray(f(tsa), float) if np.any(ib1 < 0) else tsa.copy()   # the code evaluates fcn_a2b on tsa[iamiss] only
+                f = _fit(c['PA'], c['PB'], ib1, c['linear'])
+                fa = np.asarray(f(c['PA']), float) if np.any(ib1 < 0) else tsa.copy()   # the code evaluates fcn_a2b on tsa[iamiss] only
         except Exception as e:  # noqa  external fit failed on the model's first-pass result: the code must fail the same way
             c['model_direct'] = f'err {type(e).__name__}'
             continue
@@ -718,10 +915,13 @@ def correspondence(ctx):
         model = c['model_direct'] if 'model_direct' in c else next(a2)
         tsa, tsb, linear = c['tsa'], c['tsb'], c['linear']
         desc = {'key': c['key'], 'kind': c['kind'], 'linear': linear, 'tbin': c['tbin'], 'na': int(tsa.size), 'nb': int(tsb.size),
-                'proto': c['proto'], 'digest': digest(c, linear)}
+                'proto': c['proto'], 'form': form_text(c['form']), 'digest': digest(c, linear)}
         if c['spec'] is not None:
             desc.update(ppm=c['spec']['ppm'], off=c['spec']['off'], ja=c['spec']['ja'], jb=c['spec']['jb'])
+        fm = c['form']
         tags = [c['kind'], 'linear' if linear else 'interp', 'proto_' + c['proto']] + c['info']
+        tags += ['form_plain'] if fm == FORM0 else ['form_dtype_' + fm['dtype'], 'form_layout_' + fm['layout'], 'form_' + fm['spelling'],
+                                                    'form_tbin_' + fm['tbin']] + (['form_noidx'] if fm['noidx'] else [])
         nontrivial = False
         exact = False
         if c.get('fa') is not None:
@@ -749,13 +949,25 @@ def correspondence(ctx):
             n = len(c['spec']['t'])
             tags.append('n<=32' if n <= 32 else 'n>=299' if n >= 299 else 'n mid')
         ctx.compare('sync_timestamps index pairs', desc, c['impl'], model, nontrivial=nontrivial, tags=tags)
+        unsigned_class = in_unsigned_class(tsa, tsb, c['true'], fm)
+        if unsigned_class:
+            ctx.known_hits['unsigned-negative-offset'] += 1
+            ctx.case(dict(desc, op='form'), nontrivial=False, tags=['form_skipped_known_finding_unsigned'])
+            continue
+        # --- the same values / the same call in the plain form must give the same answer (pairs, drift, mapping)
+        if fm != FORM0 and c['impl'].startswith('ok'):
+            base = run_sequence(tsa, tsb, c['tbin'], linear, 'single', FORM0)[0][0]
+            ok = base[0] == c['impl'] and _same_map(base, (c['impl'], c['fcn'], c['drift']), tsa, 1e-3)
+            ctx.compare('form vs plain float64 keyword call', dict(desc, op='form'),
+                        'ok' if ok else f'{c["impl"][:60]} drift {c["drift"]!r}', 'ok' if ok else f'{base[0][:60]} drift {base[2]!r}',
+                        nontrivial=True, tags=['form_vs_plain'])
         # --- numeric oracle on the property's own domain
         if c['spec'] is not None and c['spec'].get('domain') and c['tbin'] is None and in_domain(c['spec']):
             if in_finding_class(tsa, tsb, c['true'], c['tbin'], linear):
                 ctx.known_hits['interp-extrapolation'] += 1
                 ctx.case(dict(desc, op='oracle'), nontrivial=False, tags=['oracle_skipped_known_finding_class'])
                 continue
-            r = oracle(c['spec'], linear, stats=stats, proto=c['proto'])
+            r = oracle(c['spec'], linear, stats=stats, proto=c['proto'], form=fm)
             d2 = dict(desc, op='oracle')
             ctx.compare('oracle (ground truth)', d2, 'ok' if r is None else r, 'ok', nontrivial=True,
                         tags=['oracle', 'oracle_' + ('linear' if linear else 'interp')])
@@ -798,7 +1010,7 @@ def correspondence(ctx):
 
 
 # ---------------------------------------------------------------------------------------------
-def _shrink(spec, linear, deadline=None, proto='single'):
+def _shrink(spec, linear, deadline=None, proto='single', form=FORM0):
     """Greedy simplification of a failing ground truth that keeps it failing and inside the property's domain."""
     import time
     def fails(s):
@@ -807,7 +1019,9 @@ def _shrink(spec, linear, deadline=None, proto='single'):
         tsa, tsb, true = build(s)
         if in_finding_class(tsa, tsb, true, None, linear):
             return None
-        return oracle(s, linear, proto=proto, fresh=True)
+        if in_unsigned_class(tsa, tsb, true, form):
+            return None
+        return oracle(s, linear, proto=proto, fresh=True, form=form)
     best, why = spec, fails(spec)
     if why is None:
         return None, None
@@ -849,10 +1063,10 @@ def _shrink(spec, linear, deadline=None, proto='single'):
     return best, why
 
 
-def _report(spec, linear, why, proto='single'):
+def _report(spec, linear, why, proto='single', form=FORM0):
     tsa, tsb, true = build(spec)
-    _, steps = oracle(spec, linear, proto=proto, want_steps=True, fresh=True)
-    return {'input': {'tsa': tsa.tolist(), 'tsb': tsb.tolist(), 'linear': linear, 'tbin': 'default', 'protocol': proto,
+    _, steps = oracle(spec, linear, proto=proto, want_steps=True, fresh=True, form=form)
+    return {'input': {'tsa': tsa.tolist(), 'tsb': tsb.tolist(), 'linear': linear, 'tbin': 'default', 'protocol': proto, 'form': form,
                       'call_sequence': ['tsa = np.array(input.tsa); tsb = np.array(input.tsb)   # the same two objects in every call'] + steps,
                       'ground_truth': spec_jsonable(spec), 'true_pairs': [list(p) for p in true]},
             'observed': why,
@@ -860,7 +1074,7 @@ def _report(spec, linear, why, proto='single'):
                         'true pairs are returned, fcn(t) within 1 ms of the true map at held-out events, drift within the stated '
                         'tolerance of the true ppm (judged against the values tsa, tsb had before the first call)',
             'how': 'python (fresh interpreter): run input.call_sequence with ibldsp.utils.sync_timestamps / parabolic_max; '
-                   'harness/props/c19.py oracle(ground_truth, linear, proto=input.protocol)'}
+                   'harness/props/c19.py oracle(ground_truth, linear, proto=input.protocol, form=input.form)'}
 
 
 def search(ctx, reasons):
@@ -879,26 +1093,35 @@ def search(ctx, reasons):
             break
         c = case_by_key(ctx, k)
         proto = proto_of(k, linear)
+        form = FORM0
         tried += 1
         try:
             if not in_domain(c['spec']) or in_finding_class(c['tsa'], c['tsb'], c['true'], None, linear):
                 continue
             # the simplest self-contained call sequence (module state reset first) that fails
+            if c['tbin'] is not None:
+                continue
             r = None
-            for cand in dict.fromkeys(('single', 'repeat', proto, 'interleave')):
-                r = oracle(c['spec'], linear, proto=cand, fresh=True)
+            myform = form_by_key(ctx, k, linear, c['tbin'])
+            forms = [FORM0] + ([myform] if myform != FORM0 and myform['layout'] != 'list'
+                               and not in_unsigned_class(c['tsa'], c['tsb'], c['true'], myform) else [])
+            for fm in forms:                      # the plain form first, then the form the case was generated with
+                for cand in dict.fromkeys(('single', 'repeat', proto, 'interleave')):
+                    r = oracle(c['spec'], linear, proto=cand, fresh=True, form=fm)
+                    if r is not None:
+                        proto, form = cand, fm
+                        break
                 if r is not None:
-                    proto = cand
                     break
         except Exception as e:  # noqa
             r = f'oracle raised {type(e).__name__}: {e}'
         if r is None:
             continue
-        spec, why = _shrink(c['spec'], linear, deadline, proto)
+        spec, why = _shrink(c['spec'], linear, deadline, proto, form)
         if spec is None:
             spec, why = c['spec'], r
         if best is None or len(spec['t']) < len(best[0]['t']):
-            best = (spec, linear, why, proto)
+            best = (spec, linear, why, proto, form)
         if len(spec['t']) <= 40 or tried > 400:
             break
     if best:
@@ -909,7 +1132,8 @@ def search(ctx, reasons):
 def replay(ctx, rep):
     gt = rep['input']['ground_truth']
     spec = {k: (np.asarray(v) if isinstance(v, list) else v) for k, v in gt.items()}
-    r = oracle(spec, rep['input']['linear'], proto=rep['input'].get('protocol', 'single'), fresh=True)
+    r = oracle(spec, rep['input']['linear'], proto=rep['input'].get('protocol', 'single'), fresh=True,
+               form=rep['input'].get('form', FORM0))
     print('oracle:', r)
     return r is not None
 
@@ -929,13 +1153,31 @@ def finding_spec():
             'ea': np.zeros(n), 'eb': rng.uniform(-1e-4, 1e-4, n), 'domain': True}
 
 
+def unsigned_spec():
+    """Witness of the known finding `unsigned-negative-offset`: 30 events at whole seconds (gaps 1..10 s, seed 7), clock B 7 s
+    BEHIND clock A, nothing missing, no drift.  As uint32 (or uint16 / uint64) arrays `tsb[...] - tsa[...]` inside _interp_fcn
+    wraps around: drift_ppm is ~1e-2..1e7 instead of 0 and the linear map is off by 2^32 s; as int32 / float64 all is exact."""
+    rng = np.random.default_rng(7)
+    n = 30
+    t = np.cumsum(rng.integers(1, 11, n).astype(float)) + 500.0
+    return {'t': t, 'ka': np.arange(n), 'kb': np.arange(n), 'ppm': 0.0, 'off': -7.0, 'ja': 0.0, 'jb': 0.0,
+            'ea': np.zeros(n), 'eb': np.zeros(n), 'domain': True, 'grid': 1.0, 'exact': True}
+
+
 def known_findings(ctx):
     def interp_extrapolation():
         spec = finding_spec()
         tsa, tsb, true = build(spec)
         return (in_domain(spec) and in_finding_class(tsa, tsb, true, None, False)
                 and oracle(spec, False) is not None and oracle(spec, True) is None)
-    return {'interp-extrapolation': interp_extrapolation}
+
+    def unsigned_negative_offset():
+        spec = unsigned_spec()
+        tsa, tsb, true = build(spec)
+        form = dict(FORM0, dtype='uint32')
+        return (in_domain(spec) and in_unsigned_class(tsa, tsb, true, form)
+                and oracle(spec, True, form=form) is not None and oracle(spec, True, form=dict(FORM0, dtype='int32')) is None)
+    return {'interp-extrapolation': interp_extrapolation, 'unsigned-negative-offset': unsigned_negative_offset}
 
 
 LEVEL_TEXT = ('Lean 4 theorems over exact rationals about the model of both matching passes of sync_timestamps, for all trains, offsets, '
